@@ -412,7 +412,11 @@ RADICAL_EXTRA = ['c1cccc[c]1 |^1:5|', '[c]1ccccc1C |^1:0|', 'c1cc[n]c1 |^1:3|', 
 
 # radicals built through the API (not through the CXSMILES reader): (SMILES, atom number, H count of the radical atom)
 RADICAL_API = [('c1ccccc1', 1, 0), ('Cc1ccccc1', 4, 0), ('c1cc[nH]c1', 4, 0), ('CC', 1, 2), ('CO', 2, 0), ('c1ccncc1', 2, 0),
-               ('c1ccc2ccccc2c1', 1, 0), ('CC(C)C', 2, 0), ('c1ccccc1.CC', 3, 0)]
+               ('c1ccc2ccccc2c1', 1, 0), ('CC(C)C', 2, 0), ('c1ccccc1.CC', 3, 0),
+               # radicals the reader cannot re-infer from the H count: only the CXSMILES block carries them
+               ('[Li]', 1, 0), ('[H]', 1, 0), ('[Na]', 1, 0), ('[Cu]', 1, 0), ('C[SiH](C)C', 2, 0), ('[SiH4]', 1, 3),
+               ('C[SH](=O)=O', 2, 0), ('O=[NH]=O', 2, 0), ('CNC', 2, 0), ('C1=CC=CC1', 5, 1), ('CSC', 2, 0), ('C[Mg]C', 2, 0),
+               ('c1ccsc1', 2, 0), ('[Li].c1ccccc1', 1, 0)]
 
 
 def radical_api():
@@ -424,8 +428,37 @@ def radical_api():
         a = m._atoms[n]
         a._is_radical = True
         a._implicit_hydrogens = h
+        try:
+            if not m.check_implicit(n, h):   # not a valence-valid radical: H count undefined, judged on graph + radical flag
+                a._implicit_hydrogens = None
+        except Exception:  # noqa
+            a._implicit_hydrogens = None
         m.flush_cache()
         out.append((f'radical-api:{smi}@{n}', m))
+    return out
+
+
+# allenes whose terminal is a ring atom (the terminal opens a ring-closure digit when the traversal enters the ring through
+# the allene). Both labels, set through add_atom_stereo on a stereo-free skeleton: the SMILES stereo reader is not its own oracle.
+RING_ALLENES = ['FC1CCC(=C=C2CCC(Cl)CC2)CC1', 'CC=C=C1CCC(C)CC1', 'CC(F)=C=C1CCC(C)CC1', 'CC=C=C1CCCC(C)C1', 'C1CCCC=C=CCC1',
+                'C1CCCCC=C=CCCC1', 'CC1CCC(=C=C(C)Cl)CC1', 'CC=C=C1CCOC1', 'ClC=C=C1CCC1C', 'CC=C=C1CCCCC1C', 'CC=C=C1CC(C)C1',
+                'CC=C=C(C)F', 'FC(Cl)=C=C(C)CC']
+
+
+def allene_api():
+    out = []
+    for smi in RING_ALLENES:
+        m = molgen.parse(smi)
+        if m is None:
+            continue
+        for c, env in m.stereogenic_allenes.items():
+            for mark in (True, False):
+                x = m.copy()
+                try:
+                    x.add_atom_stereo(c, (env[0], env[1]), mark)
+                except Exception:  # noqa  not chiral for the library: nothing to write
+                    continue
+                out.append((f'allene-api:{smi}@{c}{"+" if mark else "-"}', x))
     return out
 
 
@@ -448,6 +481,7 @@ def molecules(ctx):
     out = []
     out += molgen.handmade()
     out += stereo_extra()
+    out += allene_api()
     out += radical_api()
     out += molgen.corpus(rng, 110 if q else 1200)
     for n in (3, 4, 5) if q else (3, 4, 5, 6):
@@ -491,6 +525,67 @@ def molecules(ctx):
     return out
 
 
+def order_first(mol):
+    """the other evaluation order of the two canonical observables on a FRESH object: `smiles_atoms_order` first (it primes
+    the str() cache as a side effect), then str() and format(mol, '')"""
+    c = mol.copy()
+    c.flush_cache()
+    try:
+        order = list(c.smiles_atoms_order)
+        return order, str(c), format(c, ''), None
+    except Exception as e:  # noqa
+        return None, None, None, type(e).__name__
+
+
+def history_stream(ctx, mols):
+    """canonical text and smiles_atoms_order belong together whichever is read first: text after order-first == text of
+    format-first (which K ties to the model's text incl. the CXSMILES block), and it re-reads to the molecule; a radical
+    and its twin without the radical flag (same H counts) never share the canonical string"""
+    n = 0
+    for name, m in mols:
+        line, text_ff, order_ff, _ = real_write(m, '', 0)
+        order, t_str, t_fmt, err = order_first(m)
+        n += 1
+        ctx.count(('O', tuple(wire.mol_to_ints(m))), m.bonds_count > 0 or any(a.is_radical for a in m._atoms.values()))
+        if err or text_ff is None:
+            if (err is None) != (text_ff is not None):
+                ctx.broke('relational', 'evaluation-order', f'{name}: format-first {line}, order-first raises {err}')
+            continue
+        bad = []
+        if t_str != text_ff:
+            bad.append(f'str() after smiles_atoms_order {t_str!r} != format-first {text_ff!r}')
+        if t_fmt != text_ff:
+            bad.append(f"format(mol,'') after smiles_atoms_order {t_fmt!r} != format-first {text_ff!r}")
+        if order != order_ff:
+            bad.append(f'order {order} != {order_ff}')
+        d = judge(m, t_str, order, '') if judgeable(m) else judge_connectivity_only(m, t_str, order)
+        if bad:
+            ctx.cov['disagreements_checked'] += 1
+            ctx.broke('relational', 'evaluation-order', f'{name}: ' + '; '.join(bad))
+        if d:
+            ctx.cov['disagreements_checked'] += 1
+            ctx.fail('C02/order-first/' + signature_of(d, m, '').split('/', 2)[-1],
+                     f'{name}: canonical text read AFTER smiles_atoms_order {t_str!r} re-reads with differences {d[:5]}',
+                     {'kind': 'order-first', 'mol': wire.mol_to_ints(m), 'name': name})
+        # radical twin
+        if any(a.is_radical for a in m._atoms.values()):
+            tw = m.copy()
+            for a in tw._atoms.values():
+                a._is_radical = False
+            tw.flush_cache()
+            try:
+                _, tw_str, _, _ = order_first(tw)
+            except Exception:  # noqa
+                tw_str = None
+            if tw_str is not None and tw_str == t_str:
+                ctx.cov['disagreements_checked'] += 1
+                ctx.fail('C02/order-first/radical-collision',
+                         f'{name}: the radical and its twin without the radical flag (same H counts) are both written {t_str!r} '
+                         'when smiles_atoms_order is read first',
+                         {'kind': 'order-first', 'mol': wire.mol_to_ints(m), 'name': name, 'twin': True})
+    ctx.dist('evaluation-order-cases(order-first)', n)
+
+
 # ------------------------------------------------------------------------------------------------
 # check steps
 # ------------------------------------------------------------------------------------------------
@@ -503,7 +598,7 @@ def generate(ctx):
 
 
 def correspond(ctx):
-    ctx.cov['programs'] = 5  # format(mol, spec) ; smiles_atoms_order ; smiles(text) ; Smiles._smiles token list ; heap allocator
+    ctx.cov['programs'] = 6  # format(mol, spec) ; smiles_atoms_order (also read first) ; str(mol) ; smiles(text) ; Smiles._smiles token list ; heap allocator
     mols = molecules(ctx)
     reqs, expect, meta = [], [], []
     n_specs = 5 if ctx.quick else 9
@@ -567,7 +662,7 @@ def correspond(ctx):
                     if judgeable(m):
                         d = judge(m, text, order, spec)
                     else:  # an atom without a defined H count (valence error): only the graph is judged
-                        d = judge_connectivity_only(m, text, order)
+                        d = judge_connectivity_only(m, text, order, '!x' not in spec and LOSSLESS(spec))
                         ctx.dist('reread-graph-only(valence-invalid)')
                     ctx.dist('reread:' + ('iso' if not d else 'DIFF'))
                     if d:
@@ -612,6 +707,9 @@ def correspond(ctx):
             if got != want:
                 ctx.cov['disagreements_checked'] += 1
                 ctx.broke('correspondence', 'closure-heap', f'{r[:200]}\n real : {want}\n model: {got}')
+    rad = [(nm, m) for nm, m in mols if any(a.is_radical for a in m._atoms.values())]
+    others = [(nm, m) for nm, m in mols if not any(a.is_radical for a in m._atoms.values())]
+    history_stream(ctx, rad + ctx.rng.sample(others, min(len(others), 60 if ctx.quick else 600)))
     injectivity(ctx)
 
 
@@ -884,7 +982,7 @@ def search(ctx):
                         if sig != 'C02/closure-heap-exhausted':
                             return
                         break
-                    d = judge(c, text, order, spec) if judgeable(c) else judge_connectivity_only(c, text, order)
+                    d = judge(c, text, order, spec) if judgeable(c) else judge_connectivity_only(c, text, order, '!x' not in spec and LOSSLESS(spec))
                     if d:
                         ctx.fail(signature_of(d, c, spec), f'{name} [{spec!r}] written {text!r} re-reads with differences {d[:5]}',
                                  {'kind': 'roundtrip', 'mol': wire.mol_to_ints(c), 'spec': spec, 'draw_seed': seed, 'first': first})
@@ -909,6 +1007,19 @@ def probe(inp):
             return True, f'writer raises: {line}'
         d = judge(m, text, order, inp.get('spec', ''))
         return bool(d), f'written {text!r}; differences after re-reading: {d[:4]}'
+    if kind == 'order-first':
+        m, _ = wire.ints_to_mol(inp['mol'], calc=True)
+        order, t_str, t_fmt, err = order_first(m)
+        if err:
+            return True, f'raises {err}'
+        d = judge(m, t_str, order, '') if judgeable(m) else judge_connectivity_only(m, t_str, order)
+        if inp.get('twin'):
+            tw = m.copy()
+            for a in tw._atoms.values():
+                a._is_radical = False
+            tw.flush_cache()
+            d = d or (['radical-collision'] if order_first(tw)[1] == t_str else [])
+        return bool(d), f'smiles_atoms_order read first, then str(): {t_str!r}; differences after re-reading: {d[:5]}'
     if kind == 'stereo-collision':
         from chython import smiles
         a, b = smiles(inp['smiles1']), smiles(inp['smiles2'])
@@ -931,7 +1042,7 @@ def probe(inp):
     return bool(d), f'written {text!r}; differences after re-reading: {d[:6]}' if d else f'written {text!r}; re-read is isomorphic under the written order'
 
 
-def judge_connectivity_only(mol, text, order):
+def judge_connectivity_only(mol, text, order, check_radicals=True):
     from chython import smiles
     try:
         r = smiles(text)
@@ -940,4 +1051,13 @@ def judge_connectivity_only(mol, text, order):
     back = dict(zip(list(r._atoms), order))
     rb = {frozenset((back[x], back[y])) for x, y, _ in r.bonds()}
     ob = {frozenset((x, y)) for x, y, _ in mol.bonds()}
-    return [] if rb == ob else ['connectivity']
+    diffs = [] if rb == ob else ['connectivity']
+    if not diffs and check_radicals:
+        # a radical flag of the original is written in the CXSMILES block and must come back (the converse is not judged:
+        # for valence-invalid atoms the reader may guess additional radicals)
+        for rn, n in back.items():
+            if mol._atoms[n].atomic_number != r._atoms[rn].atomic_number:
+                diffs.append(f'element@{n}')
+            elif mol._atoms[n].is_radical and not r._atoms[rn].is_radical:
+                diffs.append(f'radical@{n}')
+    return diffs
